@@ -2,7 +2,7 @@
 # tools/confirm_seed.sh <ID> : independent confirmation of a seeded defect in a scratch worktree (pinned commit).
 # demo must fail with the patch and pass without; the repo's own suite must give the baseline failing set with the patch.
 ID="$1"; S=/tmp/seed/$ID; WT=/tmp/wt/confirm-$ID
-PIN=1ff3f1f4
+PIN=${PIN:-1ff3f1f4}
 git -C /repo worktree add -q --detach "$WT" $PIN || exit 2
 cd "$WT" || exit 2
 PYTHONPATH=$WT /venv/bin/python $S/demo.py > $S/confirm_demo_without.log 2>&1; without=$?
